@@ -538,7 +538,7 @@ func runCheck(o checkOpts) *CheckOutcome {
 	}
 	timeout := o.timeout
 	if timeout == 0 {
-		timeout = 10
+		timeout = 20 // seconds of solver CPU per run (a discharged obligation normally needs well under 2 s; the margin absorbs contention on a loaded machine)
 		if o.tier == "thorough" {
 			timeout = 120
 		}
